@@ -71,7 +71,8 @@ def day_frac(val1, val2, factor=None, divisor=None):
     frac += extra + err12
     # Our fraction can now have gotten >0.5 or <-0.5, which means we would
     # loose one bit of precision. So, correct for that.
-    excess = np.floor(frac + 0.5)
+    # Not floor(frac + 0.5): for frac just below 0.5 that sum rounds to 1.
+    excess = np.round(frac)
     day += excess
     extra, frac = two_sum(sum12, -day)
     frac += extra + err12
